@@ -10,6 +10,7 @@ import sympy
 from harness.lib import coqterm as ct
 from harness.lib import sym2coq as sc
 from harness.lib.core import VERIF, source_sha
+from harness.props import c10_unused as cu
 
 LEVEL = 'proof'
 LEAVES = ['T', 'U', 'V', 'W']
@@ -27,10 +28,14 @@ TAGS = {
     14: 'dependencies raises an internal error',
     15: 'remove_symbol_definitions changes the value of a remaining output',
     16: 'remove_symbol_definitions removes a definition a remaining statement uses',
+    27: 'reassign changes the value of a symbol that does not depend on the reassigned symbol',
+    28: 'after reassign the symbol does not get the value of the new expression',
+    29: 'subs renaming an assigned symbol to a fresh one is not a consistent renaming',
 }
 # oracle tag -> (correspondence tag that must be absent for the model to explain it, finding id)
 ORACLE = {11: (3, None), 12: (2, 'C10-DEP-STALE'), 13: (2, 'C10-DEP-INEXACT'), 14: (2, 'C10-DEP-NXERROR'),
-          15: (5, 'C10-RSD-EARLIER-USER'), 16: (5, 'C10-RSD-EARLIER-USER'), 17: (6, None)}
+          15: (5, 'C10-RSD-EARLIER-USER'), 16: (5, 'C10-RSD-EARLIER-USER'), 17: (6, None),
+          27: (4, None), 28: (4, None), 29: (6, None)}
 # (all four findings are fixed in /repo: open_finding() is None for them, so any recurrence is a VIOLATION)
 
 
@@ -92,9 +97,46 @@ def gen_chain_spec(rng):
     return {'stmts': body, 'queries': q}
 
 
+def gen_ode_spec(rng):
+    """Structured family for dependencies through the ODE system: definitions before the system that its
+    rate reads, statements after it that read the amount, shadowing of an earlier symbol after the system."""
+    fam = rng.choice(['pw', 'tr'])
+    pre_vars = rng.sample(VARS[:4], rng.choice([1, 2, 2]))
+    stmts, defined = [], []
+    for v in pre_vars:
+        stmts.append([v, rexpr(rng, LEAVES + defined, rng.choice([1, 2]), fam)])
+        defined.append(v)
+    stmts.append(['ODE', f'({rexpr(rng, LEAVES + defined, 1, fam)}) + {rng.choice(defined)}*{rng.choice(LEAVES)}'])
+    amt = 'A_CENTRAL(t)'
+    post = [['X', f'({amt})/({rexpr(rng, LEAVES, 1, fam)})']]
+    if rng.random() < 0.6:
+        v = rng.choice(pre_vars)
+        post.append([v, rng.choice([f'{v} + 1', rexpr(rng, LEAVES, 1, fam), f'({amt})*{rng.choice(LEAVES)}'])])
+    post.append(['Y', f'X + {rng.choice(pre_vars + LEAVES)}'])
+    if rng.random() < 0.3:
+        post.append(['X', rexpr(rng, LEAVES + ['Y'], 1, fam)])
+    stmts += post
+    q = {'full': ['Y'], 'reassign': [[rng.choice(pre_vars + ['X']), rexpr(rng, LEAVES + pre_vars, 1, fam)]],
+         'rsd': [gen_rsd_query(rng, stmts)], 'subs': [], 'family': 'ode'}
+    return {'stmts': stmts, 'queries': q}
+
+
+def ode_uses_before_and_after(spec):
+    st = spec['stmts']
+    idx = [i for i, (l, _) in enumerate(st) if l == 'ODE']
+    if not idx:
+        return False
+    i = idx[0]
+    before = {l for l, _ in st[:i]}
+    reads_def = any(sympy.Symbol(b) in sympy.sympify(st[i][1]).free_symbols for b in before)
+    return reads_def and any('A_CENTRAL' in r for l, r in st[i + 1:] if l != 'ODE')
+
+
 def gen_spec(rng):
     if rng.random() < 0.25:
         return gen_chain_spec(rng)
+    if rng.random() < 0.12:
+        return gen_ode_spec(rng)
     n = rng.choice([1, 2, 3, 3, 4, 5, 6, 7, 8, 10, 12])
     style = rng.choice(['ssa', 'free', 'free', 'redefine'])
     fam = rng.choice(['pw', 'tr'])
@@ -371,10 +413,18 @@ def run(ctx):
         'the ODE solver is an oracle: amounts are an arbitrary function of the values of the system\'s rhs symbols',
     ]
     ctx.coverage['source_sha'] = source_sha('src/pharmpy/model/statements.py')
+    ctx.assumptions += [
+        'remove_unused_parameters_and_rvs: matrix entries and means are modelled by their free-symbol sets (the code '
+        'only reads free symbols and moves entries); applied functions A_X(t) are symbols of the IR but not of '
+        'Expr.free_symbols (never parameter or rv names; checked per case); Model.replace/update_source after the '
+        'selection are outside C10 (C04/C11), their effect on names is compared for generic and example models',
+    ]
     finding_probes(ctx)
     # regression corpus first
     reg = sorted((VERIF / 'regress' / 'C10').glob('*.json'))
     specs = [json.loads(p.read_text()) for p in reg]
+    uspecs = [x for x in specs if x.get('kind') == 'unused']
+    specs = [x for x in specs if x.get('kind') != 'unused']
     n = 400 if ctx.tier == 'quick' else 6000
     specs += [gen_spec(ctx.rng) for _ in range(n)]
     if ctx.tier == 'thorough':
@@ -392,6 +442,7 @@ def run(ctx):
     ctx.coverage['input_distribution'] = {
         'length_hist': {str(k): sum(1 for i in infos if i['n'] == k) for k in sorted({i['n'] for i in infos})},
         'with_ode': sum(1 for s in kept if any(l == 'ODE' for l, _ in s['stmts'])),
+        'ode_read_before_and_amount_used_after': sum(1 for s in kept if ode_uses_before_and_after(s)),
         'rsd_nonempty_removals': sum(1 for i in infos for r in i.get('rsd_removed', []) if r > 0),
         'impl_internal_errors': sum(len(i['errors']) for i in infos),
         'guard_def_before_use_false': sum(1 for v in verdicts if 201 in v),
@@ -399,10 +450,91 @@ def run(ctx):
         'subs_queries_outside_leaf_guard': sum(v.count(203) for v in verdicts),
     }
     ctx.coverage['samples'] = [{'spec': s, 'tags': v} for s, v in list(zip(kept, verdicts))[:4]]
+    run_unused(ctx, uspecs)
+
+
+UIMPORTS = 'Base.PyData Base.Expr Base.Interp Base.Stmts C10.Model C10.Check C10.ModelUnused C10.CheckUnused'
+
+
+def observe_unused_all(ctx, specs, label):
+    terms, kept, infos, skipped = [], [], [], 0
+    prng = __import__('random').Random(f'{ctx.seed}-{label}-pts')
+    for spec in specs:
+        try:
+            term, info = cu.observe_unused(spec, prng, stmt_term)
+        except (sc.Unconvertible, ZeroDivisionError):
+            skipped += 1
+            continue
+        except TypeError as e:
+            if 'Invalid comparison' not in str(e) and 'Cannot convert input to Expr' not in str(e):
+                raise
+            skipped += 1
+            continue
+        terms.append(term)
+        kept.append(spec)
+        infos.append(info)
+    verdicts = ctx.run_cases(label, UIMPORTS, 'ucase', terms, 'verdict_u', shard=60)
+    return kept, verdicts, infos, skipped
+
+
+def classify_unused(ctx, spec, tags):
+    tags = set(tags)
+    corr = sorted(t for t in tags if t in cu.UCORR)
+    oracle = sorted(t for t in tags if t in cu.UORACLE)
+    for t in oracle:      # no open finding concerns this stream: every oracle failure is a violation
+        ctx.violation(cu.UTAGS[t], {'spec': spec, 'tags': sorted(tags), 'tag_meaning': cu.UTAGS[t]})
+    if oracle:
+        return 'violation'
+    if corr:
+        ctx.broken.append('correspondence C10 model vs implementation (remove_unused_parameters_and_rvs): '
+                          + ', '.join(cu.UTAGS[t] for t in corr) + ' on ' + json.dumps(spec))
+        ctx.coverage.setdefault('corr_disagreements', []).append({'spec': spec, 'tags': sorted(tags)})
+        return 'broken'
+    return 'ok'
+
+
+def run_unused(ctx, regress_specs):
+    """Stream 2: _get_unused_parameters_and_rvs / remove_unused_parameters_and_rvs on generated triples
+    (statements, parameters, random variables with joint distributions, fixed-zero parameters) and on the
+    shipped example models pheno and moxo after small edits."""
+    ctx.coverage['source_sha_common'] = source_sha('src/pharmpy/modeling/common.py')
+    n = 250 if ctx.tier == 'quick' else 3000
+    specs = list(regress_specs) + cu.example_specs() + [cu.gen_unused_spec(ctx.rng, rexpr) for _ in range(n)]
+    kept, verdicts, infos, skipped = observe_unused_all(ctx, specs, 'unused')
+    if skipped > 0.3 * len(specs):
+        ctx.broken.append(f'correspondence C10 (unused): {skipped} of {len(specs)} generated inputs could not be exported')
+    stats = {'ok': 0, 'violation': 0, 'broken': 0}
+    for spec, tags in zip(kept, verdicts):
+        stats[classify_unused(ctx, spec, tags)] += 1
+    ex = [i for s, i in zip(kept, infos) if 'example' in s]
+    ctx.coverage['evaluations'] += sum(i['nqueries'] for i in infos)
+    ctx.coverage['distinct_nontrivial'] += len({json.dumps(s) for s, i in zip(kept, infos)
+                                                if i['removed_params'] + i['removed_rvs'] > 0})
+    ctx.coverage['unused_stream'] = {
+        'cases': len(kept), 'skipped_unconvertible': skipped, 'case_status': stats,
+        'example_model_cases': len(ex), 'example_model_level_calls': sum(1 for i in ex if i['model']),
+        'example_model_errors': sorted({i['model_error'] for i in ex if i['model_error']}),
+        'model_level_calls': sum(1 for i in infos if i['model']),
+        'with_joint_distribution': sum(1 for i in infos if i['joint']),
+        'with_ode': sum(1 for s in kept if any(l == 'ODE' for l, _ in s.get('stmts', []))),
+        'removed_something': sum(1 for i in infos if i['removed_params'] + i['removed_rvs'] > 0),
+        'removed_rv': sum(1 for i in infos if i['removed_rvs'] > 0),
+        'nothing_removed': sum(1 for i in infos if i['removed_params'] + i['removed_rvs'] == 0),
+        'kept_only_because_fixed_to_zero': sum(i['fixed_zero_kept'] for i in infos),
+        'rvs_not_wellformed(204)': sum(v.count(204) for v in verdicts),
+        'rule': 'non-trivial = the call removes at least one parameter or random variable; distinct by spec text',
+    }
+    ctx.coverage['samples'] += [{'spec': s, 'tags': v} for s, v in list(zip(kept, verdicts))[13:15]]
 
 
 def replay(ctx, rep):
     spec = rep['spec']
+    if spec.get('kind') == 'unused':
+        kept, verdicts, _, _ = observe_unused_all(ctx, [spec], 'replay-unused')
+        tags = verdicts[0] if verdicts else []
+        print('spec', json.dumps(spec))
+        print('tags', tags, [cu.UTAGS.get(t, t) for t in tags])
+        return 1 if any(t in cu.UORACLE or t in cu.UCORR for t in tags) else 0
     kept, verdicts, _, _ = run_specs_quiet(ctx, [spec], 'replay')
     tags = verdicts[0]
     print('spec', json.dumps(spec))
